@@ -10,7 +10,9 @@ import (
 )
 
 func (core *JApiCore) collectRules() *jerr.JApiError {
-	return core.collectRulesFromDirectives(core.directives)
+	// After the pastes are expanded, so the enums of a pasted macro stand in the
+	// catalog where the PASTE stands in the document.
+	return core.collectRulesFromDirectives(core.directivesWithPastes)
 }
 
 func (core *JApiCore) collectRulesFromDirectives(dd []*directive.Directive) *jerr.JApiError {
